@@ -40,6 +40,10 @@ type lifeBehaviour struct {
 type lifeScenario struct {
 	Script   map[string][]string `json:"script"`
 	Remoting bool                `json:"remoting"`
+	// LateSpawn: once the system is up, a goroutine outside the system spawns one more top-level actor whose OnPrelaunch
+	// takes 60 ms - while the scripted callers may already be stopping the system.  Whether that spawn succeeds or is
+	// refused is its own business; after a successful Stop no actor is alive
+	LateSpawn bool `json:"late_spawn,omitempty"`
 	// BadRemoting: the system is configured with a remoting address without a port: Start fails in its first step (and
 	// cleans up after itself); what is checked is that nothing hangs and no goroutine of the system is left
 	BadRemoting bool `json:"bad_remoting,omitempty"`
@@ -52,6 +56,15 @@ type lifeScenario struct {
 	// "graceful-restart" = an actor failed at launch, its supervisor decided GracefulRestart, and the tear-down is
 	// waiting for a child that takes 150 ms to terminate
 	Busy string `json:"busy,omitempty"`
+}
+
+// lateActor: an actor whose pre-launch hook is slow.
+type lateActor struct{}
+
+func (*lateActor) OnReceive(vivid.ActorContext) {}
+func (*lateActor) OnPrelaunch(vivid.PrelaunchContext) error {
+	time.Sleep(60 * time.Millisecond)
+	return nil
 }
 
 func classifyLifeErr(err error) string {
@@ -181,6 +194,12 @@ func runLifeScenario(sc *lifeScenario, schedule []lifeStep, seed int64) *lifeRun
 						mu.Lock()
 						started = true
 						mu.Unlock()
+					}
+					if err == nil && sc.LateSpawn {
+						go func() {
+							time.Sleep(time.Duration(seed%4) * time.Millisecond)
+							_, _ = sys.ActorOf(&lateActor{}, vivid.WithActorName("late"))
+						}()
 					}
 					// The actor tree is created only while no stop is under way: spawning from outside the system
 					// concurrently with its termination is not part of this property (that race belongs to C10/C06).
@@ -512,6 +531,7 @@ func checkC07(c *core.Ctx) {
 			sc.StopTimeoutMS = []int{0, -1000, 1, 30}[rng.Intn(4)]
 			sc.Remoting = false
 		}
+		sc.LateSpawn = sc.SlowMS == 0 && rng.Intn(3) == 0
 		if rng.Intn(10) == 0 {
 			// Start fails in its first step
 			sc = &lifeScenario{Script: map[string][]string{"a": [][]string{{"start"}, {"start", "stop"}, {"start", "start"}}[rng.Intn(3)]}, BadRemoting: true}
